@@ -55,6 +55,8 @@ def gen(seed, tier):
             dirty.append(junk(g))
         # junk must not contain LF (it would be two lines, possibly an accepted one)
         dirty = [d.replace(b"\n", b"") if d not in clean else d for d in dirty]
+        # junk must really be junk: random bytes can happen to contain 14 hex digits of an address/parity format
+        dirty = [d if (d in clean or pyspec.frame_of_line(d) is None) else b"#" + d[:5] for d in dirty]
         o = g.random_opts()
         o.pop("O", None)
         o.pop("f", None)
@@ -64,6 +66,26 @@ def gen(seed, tier):
         db = eol.join(dirty) + (eol if last_nl else b"")
         cases.append(H("C13-%d-a" % i, o, [blob(0, cb)]))
         cases.append(H("C13-%d-b" % i, o, [blob(0, db)]))
+    # junk between frames of other aircraft while one aircraft is stale: the sweep must come after the same
+    # number of ACCEPTED frames in both streams (junk does not count)
+    for i in range(60 if tier == "quick" else 600):
+        d = r.choice([0, 1, 5])
+        pool = r.sample(ICAOS, 4)
+        first = [g.any_frame(pool[0]).encode()]
+        k = r.randint(8, 14)
+        clean = [g.any_frame(r.choice(pool[1:])).encode() for _ in range(k)]
+        dirty = []
+        for ln in clean:
+            for _ in range(r.choice([0, 1, 1, 2])):
+                j = junk(g).replace(b"\n", b"")
+                dirty.append(j if pyspec.frame_of_line(j) is None else b"#")
+            dirty.append(ln)
+        o = {"d": d}
+        if r.random() < 0.5:
+            o["U"] = 1
+        t2 = d * 1000 + 1000
+        cases.append(H("C13-s%d-a" % i, o, [seg(0, first), seg(t2, clean)]))
+        cases.append(H("C13-s%d-b" % i, o, [seg(0, first), seg(t2, dirty)]))
     return cases
 
 
